@@ -126,3 +126,90 @@ def null_passthrough(seed, params):
     sim = make_sim([nrl, back], p.end())
     _burst(sim, nrl, arr)
     return Scenario(sim, {"null": nrl, "backend": back}, "rate_limiter", True, len(arr))
+
+
+# ----------------------------------------------------------------------
+# composition: limiters behind a delaying stage / in front of zero-latency targets; degenerate limits
+
+
+def _limiter(kind: str, p: P, downstream, v: int):
+    w = p.lat(1) * (0.5 if v % 2 else 3.0)
+    if kind == "distributed":
+        store = KVStore("store", read_latency=p.lat(2), write_latency=p.lat(3))
+        lim = DistributedRateLimiter("lim", downstream=downstream, backing_store=store, global_limit=p.count(0, 3), window_size=w)
+        return lim, [lim, store], None
+    if kind == "inductor":
+        lim = Inductor("lim", downstream=downstream, time_constant=w, queue_capacity=p.count(1, 10, lo=0))
+        return lim, [lim], None
+    if kind == "null":
+        lim = NullRateLimiter("lim", downstream=downstream)
+        return lim, [lim], None
+    pol = _policy(kind, P({**p.d, "lats": [w / 10] + list(p.d.get("lats") or [])}, p.seed))
+    lim = RateLimitedEntity("lim", downstream=downstream, policy=pol, queue_capacity=p.count(1, 10, lo=0))
+    return lim, [lim], type(pol).__name__
+
+
+_LIMITERS = ("token_bucket", "leaky_bucket", "sliding_window", "fixed_window", "adaptive", "distributed", "inductor", "null")
+
+
+def _make_composed(kind):
+    def build(seed, params):
+        from hsverif.scenarios._kit import FRONT_STAGES, front_stage
+
+        p = P(params, seed)
+        v = int(p.x("v", seed * 7 + 3))
+        tkind = (v // 5) % 3
+        if tkind == 0:
+            target = Replier("target", 0.0)  # zero-latency target
+        elif tkind == 1:
+            target = Replier("target", p.lat(1) * 3)
+        else:
+            from happysimulator.components.server import Server
+            from hsverif.scenarios._kit import ConstantLatency
+
+            target = Server("target", concurrency=1, service_time=ConstantLatency(p.lat(2)), queue_capacity=p.count(2, 5))
+        lim, ents, tag = _limiter(kind, p, target, v)
+        entry, front = front_stage(FRONT_STAGES[v % 5], p, lim, lat_index=0)
+        arr = p.arrivals(8)
+        sim = make_sim([*front, *ents, target], p.end())
+        _burst(sim, entry, arr)
+        return Scenario(
+            sim, {"lim": lim, "target": target}, "rate_limiter", True, len(arr),
+            extras={"mechanism_tag": tag} if tag else {}, notes=f"front={FRONT_STAGES[v % 5]} target={tkind}",
+        )  # fmt: skip
+
+    build.__name__ = f"composed_{kind}"
+    build.__doc__ = f"{kind} limiter BEHIND a delaying stage (context forwarded) and in front of zero-latency / slow / queueing targets."
+    return build
+
+
+for _k in _LIMITERS:
+    scenario(f"rate_limiter.composed_{_k}", "rate_limiter")(_make_composed(_k))
+
+
+@scenario("rate_limiter.degenerate_limits", "rate_limiter")
+def degenerate_limits(seed, params):
+    """Every limiter at its degenerate limits: queue_capacity 0 and 1, one request per window, 1 ns windows,
+    buckets starting empty, global_limit 1, a single arrival, zero-latency downstream."""
+    p = P(params, seed)
+    sink = Recorder("sink")
+    lims = [
+        RateLimitedEntity("tb0", sink, TokenBucketPolicy(capacity=1.0, refill_rate=1.0 / p.lat(0), initial_tokens=0.0), queue_capacity=0),
+        RateLimitedEntity("tb1", sink, TokenBucketPolicy(capacity=1.0, refill_rate=1.0 / p.lat(0), initial_tokens=0.0), queue_capacity=1),
+        RateLimitedEntity("lb", sink, LeakyBucketPolicy(leak_rate=1.0 / p.lat(1)), queue_capacity=1),
+        RateLimitedEntity("sw", sink, SlidingWindowPolicy(window_size_seconds=1e-9, max_requests=1), queue_capacity=p.count(0, 3)),
+        RateLimitedEntity("fw", sink, FixedWindowPolicy(requests_per_window=1, window_size=p.lat(2)), queue_capacity=p.count(0, 3)),
+        RateLimitedEntity("fw_ns", sink, FixedWindowPolicy(requests_per_window=1, window_size=1e-9), queue_capacity=2),
+        RateLimitedEntity("ad", sink, AdaptivePolicy(initial_rate=1.0 / p.lat(0), min_rate=1.0 / p.lat(0), max_rate=1.0 / p.lat(0), window_size=p.lat(0)), queue_capacity=2),
+        Inductor("ind0", sink, time_constant=p.lat(3), queue_capacity=0),
+        Inductor("ind_ns", sink, time_constant=1e-9, queue_capacity=p.count(1, 4)),
+    ]
+    store = KVStore("store", read_latency=p.lat(0), write_latency=p.lat(1))
+    drl = DistributedRateLimiter("drl", downstream=sink, backing_store=store, global_limit=1, window_size=p.lat(2) * 2, local_threshold=1.0)
+    arr = p.arrivals(4)
+    sim = make_sim([*lims, drl, store, sink], p.end())
+    n = 0
+    for lim in [*lims, drl]:
+        _burst(sim, lim, arr)
+        n += len(arr)
+    return Scenario(sim, {x.name: x for x in [*lims, drl]}, "rate_limiter", True, n)
